@@ -526,6 +526,44 @@ Definition mkcfgL (tr : list (N * rtrig)) (fm cl : bool) (gd : Z) (thr rs re : N
 Definition mkcfg (tr : list (N * rtrig)) (fm cl : bool) (gd : Z) (thr rs re : N) (plt : list N) (lc nm : bool) : cfg :=
   mkcfgL tr fm cl gd thr rs re plt lc nm [].
 
+(* ------------------------------------------------------------------ size filter (spec only) *)
+(* -Z SIZE / -T f@size=N (analysis time): "filter functions that has small sizes": a function whose symbol
+   is smaller than the size in force is not shown, its callees are judged on their own; size=N on a function
+   replaces the size in force for the function itself and for everything below it. *)
+Fixpoint vis_size (szof : N -> N) (ztr : N -> option N) (zs : N) (d rd : Z) (n : call) : list vev :=
+  match n with
+  | Call f t0 t1 ks =>
+      let zs' := match ztr f with Some z => z | None => zs end in
+      if (szof f <? zs')%N
+      then flat_map (vis_size szof ztr zs' d (rd + 1)) ks
+      else {| v_exit := false; v_fn := f; v_disp := d; v_rdepth := rd; v_time := t0 |}
+             :: flat_map (vis_size szof ztr zs' (d + 1) (rd + 1)) ks
+             ++ [{| v_exit := true; v_fn := f; v_disp := d; v_rdepth := rd; v_time := t1 |}]
+  end.
+Definition select_size (szof : N -> N) (ztr : N -> option N) (zs : N) (f : list call) : list vev :=
+  flat_map (vis_size szof ztr zs 0 0) f.
+
+(* the options -H f for every function f smaller than zs, and nothing else *)
+Definition hide_small (szof : N -> N) (zs : N) : cfg :=
+  {| trig_of := fun f => {| q_filter := None; q_depth := None; q_time := None; q_trace_on := false; q_trace_off := false;
+                            q_trace := false; q_caller := false; q_hide := (szof f <? zs)%N |};
+     fmode_in := false; caller_filter := false; gdepth := 1024; threshold := 0;
+     range_start := 0; range_stop := 0; loc_of := fun _ => None; lmode_in := false;
+     is_plt := fun _ => false; libcall := true; no_merge := false |}.
+
+(* the same as a transformation of the call tree: small functions are spliced out, their callees move up.
+   Everything else (-t / time= on the look-ahead list, -F/-N/-D/... in fstack_entry) then works on what is left:
+   get_task_ustack drops the ENTRY and EXIT of a small function before the time filter and fstack_entry see them. *)
+Fixpoint zsplice (szof : N -> N) (ztr : N -> option N) (zs : N) (n : call) : list call :=
+  match n with
+  | Call f t0 t1 ks =>
+      let zs' := match ztr f with Some z => z | None => zs end in
+      let ks' := flat_map (zsplice szof ztr zs') ks in
+      if (szof f <? zs')%N then ks' else [Call f t0 t1 ks']
+  end.
+Definition select_z (c : cfg) (szof : N -> N) (ztr : N -> option N) (zs : N) (f : list call) : list vev :=
+  select c (flat_map (zsplice szof ztr zs) f).
+
 (* ------------------------------------------------------------------ several tasks *)
 (* Every task has its own data file, look-ahead list (get_task_ustack) and filter state; the commands read
    the records of all tasks merged by timestamp (read_user_stack: strictly smaller time wins, so the
